@@ -26,8 +26,8 @@ ASSUMPTIONS = [
     "'~>' states (transit with unknown previous or next site) are checked only as a whole: together they must hold exactly the remaining pairs",
     'site states reported by Transitions are taken as given (C02/C03)',
 ]
-N_CASES = {'quick': 200, 'thorough': 5000}
-BUDGET_S = {'quick': 220, 'thorough': 2400}
+N_CASES = {'quick': 200, 'thorough': 25000}
+BUDGET_S = {'quick': 220, 'thorough': 3600}
 EDGE = 1e-7
 
 _mon = Monitor()
